@@ -758,7 +758,9 @@ func TestC13(t *testing.T) {
 		for _, n := range cfg.longSleepNs {
 			nr := def(n).NotaryRound
 			for i := 0; i < n; i++ {
-				for _, back := range []int{10, 60} {
+				// 10 and 60 rounds before the default designation, and the last three rounds before it (between the
+				// publication of the shared data, the members' signatures and the leader's collection of them)
+				for _, back := range []int{1, 2, 3, 10, 60} {
 					if nr-back > 1 {
 						scheds = append(scheds, Schedule{N: n, Devs: []Dev{{Kind: "sleep", Member: i, Round: nr - back, Len: 150}}})
 					}
